@@ -381,6 +381,10 @@ func (c *ctx) checkO(co caseOpt, ns string, body []byte, progs []Prog, class str
 	r.Case(line, true, class+"/"+ex.end)
 
 	fail := func(clause, key, detail string) { r.Fail(clause, key, lines, detail) }
+	// the address bound during negotiation is the session's own address from then on
+	if co.opt.Rebind != "" && res.LocalBare != co.opt.NewAddr.Bare().String() {
+		fail("from-blank", "address-not-updated", fmt.Sprintf("the session was given the address %s during negotiation (%s) but serves as %s", co.opt.NewAddr, co.opt.Rebind, res.LocalBare))
+	}
 	if werr != nil && !partial {
 		fail("output-wellformed", "output", werr.Error())
 	}
